@@ -65,6 +65,9 @@ pub struct SimConfig {
     /// timers); without it the victim runs as soon as nobody else is runnable
     #[serde(default)]
     pub hold_through_idle: bool,
+    /// buggify sites that fire at most this many times per run (a fault that heals)
+    #[serde(default)]
+    pub buggify_limits: BTreeMap<String, u32>,
 }
 
 impl Default for SimConfig {
@@ -84,6 +87,7 @@ impl Default for SimConfig {
             hold_sites: Vec::new(),
             hold_steps: 0,
             hold_through_idle: false,
+            buggify_limits: BTreeMap::new(),
         }
     }
 }
@@ -1019,6 +1023,11 @@ impl Controller for Sim {
         };
         if rate == 0 {
             return false;
+        }
+        if let Some(limit) = g.cfg.buggify_limits.get(site).copied() {
+            if g.fail_hits.get(site).copied().unwrap_or(0) >= limit as u64 {
+                return false;
+            }
         }
         // a rate of 1000 is a per-run switch: no draw from the fault tape
         let hit = rate >= 1000 || g.fault.chance(rate, 1000);
